@@ -95,9 +95,11 @@ func (m *MMap) Close() error {
 		vhook.IO("close", m.file.Name(), m.virtualSize, 0, nil)
 		defer vhook.IO("closeDone", m.file.Name(), m.virtualSize, 0, nil)
 	}
+	vhook.IO("sync", m.file.Name(), m.virtualSize, 0, nil)
 	if err := m.activeMap.Flush(); err != nil {
 		return err
 	}
+	vhook.IO("syncDone", m.file.Name(), m.virtualSize, 0, nil)
 	if err := m.activeMap.Unmap(); err != nil {
 		return err
 	}
